@@ -62,11 +62,11 @@ def normal_order(word, target):
     return swaps, eliminated
 
 
-def spec_entry(eI, eJ, eK):
+def spec_entry(eI, eJ, eK, metric_pos):
     swaps, eliminated = normal_order(eI[1:] + eJ[1:], eK[1:])
     p = Poly.const(-1 if swaps % 2 else 1)
     for ch in eliminated:
-        p = p * Poly.atom(f"s_{ch}")
+        p = p * Poly.atom(f"s{metric_pos[ch]}")
     return p
 
 
@@ -102,15 +102,10 @@ def build_algebra(repo, p=0, q=0, r=0, signature=None, start_index=None, basis=N
 
 def symbolic_table(it, alg, pairs=None):
     """Sign table with the metric replaced by indeterminates s_<generator char>: {(I, J): Poly}."""
-    b2c = alg.attrs["bin2canon"]
     d = alg.attrs["d"]
-    start = alg.attrs["start_index"]
-    gens = {}
-    for b, name in b2c.items():
-        if len(name) == 2:
-            gens[int(name[1:], 16) - start] = name[1:]
-    n = max(gens) + 1 if gens else 0
-    alg.attrs["signature"] = [pv_atom(f"s_{gens[i]}") if i in gens else Unk("metric") for i in range(n)]
+    # one indeterminate per POSITION of the signature: the metric of a generator named c is the entry at
+    # position int(c, 16) - (smallest generator label), whatever bit the generator is assigned
+    alg.attrs["signature"] = [pv_atom(f"s{i}") for i in range(d)]
     fn = it._class_def("Algebra", "_prepare_signs")
     signs = it.call_function(fn, [alg], {}, {}, "algebra")
     table = {}
@@ -133,6 +128,9 @@ CONFIGS = {
     "explicit signature [-1,0,1,1]": dict(signature=[-1, 0, 1, 1]),
     "custom basis, permuted generators": dict(p=3, basis=["e", "e2", "e3", "e1", "e23", "e31", "e12", "e123"]),
     "custom basis, spelled blades": dict(p=2, r=1, basis=["e", "e1", "e0", "e2", "e10", "e02", "e21", "e021"]),
+    "custom basis, labels from 0 in a non-degenerate algebra": dict(p=1, q=1, basis=["e", "e0", "e1", "e01"]),
+    "custom basis, labels from 3 in a PGA": dict(p=2, r=1, basis=["e", "e3", "e4", "e5", "e34", "e35", "e45", "e345"]),
+    "default d=3, explicit start_index=0": dict(p=2, q=1, start_index=0),
 }
 
 
@@ -147,12 +145,15 @@ def check_table(ctx, repo, label, kwargs, c, fn, pairs=None):
         return None
     b2c = alg.attrs["bin2canon"]
     c2b = alg.attrs["canon2bin"]
+    labels = [n[1:] for n in c2b if len(n) == 2]
+    lowest = min(int(l, 16) for l in labels) if labels else 0
+    metric_pos = {l: int(l, 16) - lowest for l in labels}
     problems = []
     if sorted(b2c) != list(range(2 ** alg.attrs["d"])) or {v: k for k, v in b2c.items()} != dict(c2b):
         problems.append(f"canon2bin / bin2canon are not inverse bijections onto 0..2^d-1: {b2c}")
     bad = []
     for (I, J), got in table.items():
-        want = spec_entry(b2c[I], b2c[J], b2c[I ^ J])
+        want = spec_entry(b2c[I], b2c[J], b2c[I ^ J], metric_pos)
         if got is None or got != want:
             bad.append(((b2c[I], b2c[J]), got, want))
     if bad:
@@ -166,7 +167,7 @@ def check_table(ctx, repo, label, kwargs, c, fn, pairs=None):
     return it, alg, signs
 
 
-@rule("C01.sign-table", props=["C01"], min_instances=8, mutants=[
+@rule("C01.sign-table", props=["C01"], min_instances=11, mutants=[
     ("swap count off by one", ("algebra", "        swaps += len(blade1) - idx - 1", "        swaps += len(blade1) - idx")),
     ("metric indexed without start_index", ("algebra", "sign *= self.signature[int(key, base=16) - self.start_index]", "sign *= self.signature[int(key, base=16) - 1]")),
     ("target reordering not counted", ("algebra", "            swaps += idx - i", "            swaps += 0")),
